@@ -98,6 +98,18 @@ MUTANTS = [
      "    root, ext = os.path.splitext(file_name)\n    if ext not in _engine_extensions.values():\n        file_name = root + _engine_extensions[engine]\n"),
     ("missing-ignores-non-dimension-keys", "C13", CR,
      "        sds = ds.sel(setting)\n", "        sds = ds.sel({k: v for k, v in setting.items() if k in ds.dims})\n"),
+    # ---- third review round ---------------------------------------------------------------
+    ("missing-skips-non-nullable-variables", "C13", CR,
+     "        nds = nds.to_array().all()\n",
+     "        nullable = [name for name, var in ds.data_vars.items() if var.dtype.kind not in 'iub']\n"
+     "        if not nullable:\n            return False\n"
+     "        nds = nds[nullable].to_array().all()\n"),
+    ("missing-casts-labels-to-coordinate-dtype", "C13", CR,
+     "        sds = ds.sel(setting)\n",
+     "        sds = ds.sel({k: (np.asarray(v, dtype=ds[k].dtype)[()] if k in ds.coords else v) for k, v in setting.items()})\n"),
+    ("harvester-file-from-constructor-engine", "C14", FA,
+     "        # the file actually written by ``save_ds`` carries the extension\n        file_name = auto_add_extension(self.data_name, engine)\n",
+     "        # the file actually written by ``save_ds`` carries the extension\n        file_name = auto_add_extension(self.data_name, self.engine)\n"),
 ]
 
 # Equivalent in this environment (NOT caught, and cannot be: behaviour is unchanged):
